@@ -3,8 +3,10 @@ CONSTANTS
   RADD = "fromR"
   SHAPES <- T_SHAPES
   KICKS = {1, 2}
+  R0 = {2, 4, 7}
   NSWEEPS = 2
 INVARIANT Conformable
 INVARIANT IdxCovers
+INVARIANT StartAdmissible
 INVARIANT RanksValid
 CHECK_DEADLOCK FALSE
